@@ -39,6 +39,7 @@ func (e *Engine) RunRoot(fn *ssa.Function) (err error) {
 	e.resetSymbolic()
 	e.rootKey = shortKey(funcKey(fn))
 	e.rootContract = e.contractFor(fn)
+	e.rootFn = fn
 	e.noteRootBudget()
 	e.tm.noStrLen = e.rootContract != nil && (e.rootContract.Flags["nostrlen"] != "" || e.rootContract.Flags["opaque_strings"] != "")
 	e.u.abstractStrings = e.rootContract != nil && e.rootContract.Flags["opaque_strings"] != ""
